@@ -108,7 +108,7 @@ macro "bleaf_close" : tactic =>
     | b_breach)
 
 macro "b_simp0" : tactic =>
-  `(tactic| simp only [*, ↓reduceIte, Bool.false_eq_true, strip_lastLoc, strip_refLoc, strip_eofErr, strip_replay])
+  `(tactic| simp only [*, ↓reduceIte, Bool.false_eq_true, strip_lastLoc, strip_refLoc, strip_atAlias, strip_eofErr, strip_replay])
 
 theorem takeStringScalar_br {P : BP} (hcl : Closed P) (cfg : Cfg) {c : Cur} (hi : P.Inv c) :
     BR P (takeStringScalar cfg c) (takeStringScalar cfg (strip c)) := by
